@@ -432,7 +432,7 @@ def run(ctx, report):
                       'under whatever spelling of its address the evaluated expression uses); shared with C07.D15', floor=3)
     from .c07 import lookup_key_rule
     lookup_key_rule(R14, ea, methods)
-    R16 = report.rule('C06.D16', 'the symbolic machine interpreted from its source (mpool, eval_abs, the node classes, the simplifier) on 24 instruction histories - a cell read at its own '
+    R16 = report.rule('C06.D16', 'the symbolic machine interpreted from its source (mpool, eval_abs, the node classes, the simplifier) on 26 instruction histories - a cell read at its own '
                       'width, narrower, wider, from the middle, across cells and before a cell, through constant and symbolic addresses, values that became constants on the way through every '
                       'shift / rotate evaluator: every register and probed cell, valued on three initial states, equals the concrete execution of the history (shared with C07.D17)', floor=20)
     from .. import machine as _machine
@@ -1285,6 +1285,14 @@ def op_eval_rule(ctx, R, ea, methods, deal, no_check):
         me.eval_expr = Native(lambda e_, cache=None: e_)
         me.deal_op = dict((op, methods[name]) for op, name in deal.items() if name in methods)
         me.op_size_no_check = list(no_check)
+        # the other class-level constants of eval_abs (tables of operator names ...)
+        for st_ in ea.cls('eval_abs').body:
+            if isinstance(st_, ast.Assign) and len(st_.targets) == 1 and isinstance(st_.targets[0], ast.Name) and isinstance(st_.value, (ast.List, ast.Tuple, ast.Dict, ast.Set, ast.Constant)) \
+                    and st_.targets[0].id not in me.__dict__['_attrs']:
+                try:
+                    setattr(me, st_.targets[0].id, Evaluator({}).ev(st_.value))
+                except NotConst:
+                    pass
         return me
 
     def run_op(e, lenient=False):
